@@ -26,15 +26,18 @@ def sortIdx (key : Nat → Nat) (n : Nat) : List Nat := (List.range n).foldl (fu
 /-- `inverse[old]` -/
 def inversePerm (order : List Nat) (old : Nat) : Nat := (order.findIdx? (· == old)).getD order.length
 
+/-- `if (!(function_flags[ri] & NAME_INHERITED)) function_offsets[..].def.f_index = inverse[oldix]` -/
+def fixEntry (order : List Nat) (fl : Nat) (e : REntry) : REntry :=
+  if hasBit fl nameInherited then e
+  else match e with
+    | .defn fi na => .defn (inversePerm order fi) na
+    | .inh a b => .inh a b
+
 /-- the table permutation and the f_index fix-up of sort_function_table for an arbitrary `temp[]` -/
 def permuteProgram (P : Program) (order : List Nat) : Program :=
   { P with
     ft := order.filterMap (fun i => P.ft[i]?),
-    rt := (P.flags.zip P.rt).map fun (fl, e) =>
-      if hasBit fl nameInherited then e
-      else match e with
-        | .defn fi na => .defn (inversePerm order fi) na
-        | e => e }
+    rt := (P.flags.zip P.rt).map fun x => fixEntry order x.1 x.2 }
 
 /-- load_binary + sort_function_table: the names get the pointers `rekey` gives them, the table is sorted by them -/
 def resortProgram (P : Program) (rekey : String → NameKey) : Program :=
